@@ -23,6 +23,7 @@ WEAK = {
     "Budgets_WeakStartExcl.cfg": "Inv_C05_HalfOpen",
     "Budgets_WeakFloor.cfg": "Inv_C05_Ceil",
     "Budgets_WeakEmptyNone.cfg": "Inv_C05_EmptyListsNone",
+    "Budgets_Pct_WeakFloor.cfg": "Inv_C05_Ceil",
 }
 WEAK_ROUNDS = ["BudgetRounds_Weak_nodecrement.cfg", "BudgetRounds_Weak_norevalidate.cfg", "BudgetRounds_Weak_ignorenotready.cfg"]
 PAR = {"quick": 8, "thorough": 8}
